@@ -78,6 +78,8 @@ enum Item {
     /// one byte of the record set to zero (enum / Option tags, counts), a declared output altered
     ZeroByte { target: Tid, idx: usize },
     Garbage { target: Tid, seed: u64 },
+    /// something that is not a file where the record should be: a directory (empty or not)
+    DirAtRecord { target: Tid, populated: bool },
     Foreign { target: Tid, from: Tid },
 }
 
@@ -101,6 +103,7 @@ impl Item {
             Item::Flip { target, bit, edit } => format!("flip:{}:{}:{}", sc.sim_id(target.0, &target.1), bit, ["same", "edited", "output-altered"][*edit as usize]),
             Item::ZeroByte { target, idx } => format!("zero:{}:{}", sc.sim_id(target.0, &target.1), idx),
             Item::Garbage { target, seed } => format!("garbage:{}:{}", sc.sim_id(target.0, &target.1), seed),
+            Item::DirAtRecord { target, populated } => format!("dir-at-record:{}:{}", sc.sim_id(target.0, &target.1), if *populated { "populated" } else { "empty" }),
             Item::Foreign { target, from } => format!("foreign:{}:{}", sc.sim_id(target.0, &target.1), sc.sim_id(from.0, &from.1)),
         }
     }
@@ -397,6 +400,8 @@ impl Property for C05 {
             }
             items.push(Item::Garbage { target: t.clone(), seed: len as u64 * 7919 + 1 });
             items.push(Item::Garbage { target: t.clone(), seed: len as u64 * 104729 + 2 });
+            items.push(Item::DirAtRecord { target: t.clone(), populated: false });
+            items.push(Item::DirAtRecord { target: t.clone(), populated: true });
             for other in finals.keys() {
                 if other != t {
                     items.push(Item::Foreign { target: t.clone(), from: other.clone() });
@@ -529,6 +534,19 @@ impl Property for C05 {
                     let _ = std::fs::write(&p, &b);
                     interrupted = None;
                 }
+                Item::DirAtRecord { target, populated } => {
+                    if restore(&base2, root).is_err() {
+                        break;
+                    }
+                    case.clock = clock_after_r0;
+                    let p = state_file(sc, &case, target);
+                    let _ = std::fs::remove_file(&p);
+                    let _ = std::fs::create_dir_all(&p);
+                    if *populated {
+                        let _ = std::fs::write(p.join("leftover"), b"not a record\n");
+                    }
+                    interrupted = None;
+                }
                 Item::Foreign { target, from } => {
                     if restore(&base2, root).is_err() {
                         break;
@@ -544,13 +562,14 @@ impl Property for C05 {
             let _ = in_before;
             let r2 = run_invocation(sc, &mut case, &recovery, "r2");
             stats.absorb_run(&recovery, &r2, false);
-            if matches!(it, Item::Prefix { .. } | Item::Flip { .. } | Item::ZeroByte { .. } | Item::Garbage { .. } | Item::Foreign { .. }) {
+            if matches!(it, Item::Prefix { .. } | Item::Flip { .. } | Item::ZeroByte { .. } | Item::Garbage { .. } | Item::Foreign { .. } | Item::DirAtRecord { .. }) {
                 stats.nontrivial.insert(r2.order_hash ^ simrt::stamp::fnv(simrt::stamp::FNV_INIT, tag.as_bytes()));
                 *stats.faults.entry(match it {
                     Item::Prefix { .. } => "torn-record-prefix".to_string(),
                     Item::Flip { .. } => "record-bit-flip".to_string(),
                     Item::ZeroByte { .. } => "record-byte-zeroed".to_string(),
                     Item::Garbage { .. } => "record-garbage".to_string(),
+                    Item::DirAtRecord { .. } => "directory-at-record-path".to_string(),
                     _ => "record-foreign".to_string(),
                 }).or_insert(0) += 1;
             } else if matches!(it, Item::Signal(..)) {
@@ -625,7 +644,7 @@ impl Property for C05 {
                         let done = interrupted.as_ref().map(|r1| completed_in(r1, sc, t, &disp) && on_disk[t].is_some()).unwrap_or(false);
                         started.contains(t) && !done
                     }
-                    Item::Prefix { target, .. } | Item::Garbage { target, .. } => target == t,
+                    Item::Prefix { target, .. } | Item::Garbage { target, .. } | Item::DirAtRecord { target, .. } => target == t,
                     Item::Flip { target, .. } | Item::ZeroByte { target, .. } => target == t && edited_ok,
                     Item::Foreign { target, from } => target == t && finals.get(from) != finals.get(t) && !foreign_matches(sc, &case, t, from),
                 };
@@ -642,6 +661,7 @@ impl Property for C05 {
                         Item::Flip { .. } => "its record has a flipped bit and one of its declared inputs or outputs changed".to_string(),
                         Item::ZeroByte { idx, .. } => format!("byte {} of its record is zeroed and one of its declared outputs was altered", idx),
                         Item::Garbage { .. } => "its record is garbage".to_string(),
+                        Item::DirAtRecord { .. } => "a directory lies where its record should be".to_string(),
                         Item::Foreign { from, .. } => format!("its record file holds the record of {}", sc.display(from.0, &from.1)),
                     };
                     let _ = interrupted.as_ref();
